@@ -14,7 +14,7 @@ int vf_mkstemp(char *tmpl) {
 	pthread_mutex_lock(&mk_mu);
 	mk_calls++;
 	size_t dl = strlen(mk_dir);
-	if (strncmp(tmpl, mk_dir, dl) || tmpl[dl] != '/' || strchr(tmpl + dl + 1, '/')) snprintf(mk_bad, sizeof mk_bad, "%s", tmpl);
+	if (strncmp(tmpl, mk_dir, dl) || tmpl[dl] != '/' || strstr(tmpl + dl, "/../")) snprintf(mk_bad, sizeof mk_bad, "%s", tmpl);    /* anywhere below the configured directory is "inside" */
 	pthread_mutex_unlock(&mk_mu);
 	return mkstemp(tmpl);
 }
@@ -155,7 +155,7 @@ static void run(scase *c) {
 	mtbl_iter_destroy(&it);
 	mtbl_sorter_destroy(&s);
 	pthread_mutex_lock(&mk_mu);
-	if (mk_bad[0]) vh_violation("tempdir", "spill file template '%s' is not directly inside the configured temp dir '%s'", mk_bad, mk_dir);
+	if (mk_bad[0]) vh_violation("tempdir", "spill file template '%s' is not inside the configured temp dir '%s'", mk_bad, mk_dir);
 	int calls = mk_calls;
 	pthread_mutex_unlock(&mk_mu);
 	if (calls > 1) g_multi_chunk++;
